@@ -61,7 +61,8 @@ def rerun_unknown(fn, jobs, results, factor=4, procs=4, limit=64):
     a timeout.  Those jobs are run again, few at a time, with `factor` times the budget; a result is replaced only by one with fewer undecided
     obligations.  Returns (results, number of jobs re-run).  Verdicts (`unsat` / replayed counterexample) are never derived from a timeout."""
     def unknowns(r):
-        return sum(1 for o in r.get("obligations", []) if o.get("status") == "unknown") if isinstance(r, dict) else 0
+        # solver-undecided only: a subset escape (function outside the executable subset, symbolic execution over its time budget) does not change with a larger solver budget
+        return sum(1 for o in r.get("obligations", []) if o.get("status") == "unknown" and o.get("kind") != "subset") if isinstance(r, dict) else 0
     idx = [i for i, r in enumerate(results) if unknowns(r)]
     if not idx or len(idx) > limit:
         return results, 0
